@@ -9,9 +9,16 @@ S = V / "seeded"
 ids = sys.argv[1:] or sorted(d.name for d in S.iterdir() if d.is_dir())
 
 def props_of(meta):
-    if "props" in meta:
+    if meta.get("props"):
         return meta["props"]
-    return re.findall(r"\bC\d\d\b", meta["ran"].split(">")[-1])
+    toks = meta["ran"].replace("(", " ").split()
+    out = []
+    for t in toks[3:]:
+        if re.fullmatch(r"C\d\d", t):
+            out.append(t)
+        elif out:
+            break
+    return out
 
 def one(i):
     d = S / i
